@@ -212,6 +212,10 @@ def c04(chk):
     # bulk-loaded archives: megabyte tiles, a six-digit run of one content, thousands of tiles -- saved, reopened, looked up
     trace_b = drive(chk, "bulk")
     chk.validate("Trace_Archive", trace_b, "bulk", scope=scope_of("C04"), parallel=6, cuts=True, timeout=3000)
+    if thorough(chk):
+        # a six-digit run of one content (TLC needs about a quarter of an hour for it)
+        trace_l = drive(chk, "longrun")
+        chk.validate("Trace_Archive", trace_l, "longrun", scope=scope_of("C04"), cuts=True, timeout=5000)
     seg = segment_with(trace, lambda o: o["ev"] == "Get" and o["res"] == "some")
     neg_segment(chk, seg, lambda o: o.update(tok=o["tok"] + 1), "get_tok", "C04")
     neg_segment(chk, seg, lambda o: o.update(res="none"), "get_none", "C04")
